@@ -11,7 +11,7 @@ Description format (everything JSON):
   eqn    = [expr, expr] | ["for", i, lo, hi, [[expr, expr], ...]]
   comp   = {name, type, prefixes: [str], dims: [int], mods: [smod], value: expr | null}
   smod   = {name: [str, ...], subs: [smod], value: expr | null}     as spelled: a.b(subs) = value
-  expr   = ["num", k>=0] | ["bool", b] | ["str", s] | ["ref", [[name, [sub, ...]], ...]]
+  expr   = ["num", k>=0] | ["real", "0.5"] | ["bool", b] | ["str", s] | ["ref", [[name, [sub, ...]], ...]]
            | ["un", op, e] | ["bin", op, e1, e2]
   sub    = k | expr of the forms ref / bin "+" / num (two levels of subscripts at most: v[i + off[k]])
 Canonical flat model:
@@ -37,6 +37,8 @@ def show_expr(e):
     k = e[0]
     if k == "num":
         return str(e[1])
+    if k == "real":
+        return e[1]
     if k == "bool":
         return "true" if e[1] else "false"
     if k == "str":
@@ -519,7 +521,7 @@ def py_expr(e):
         if isinstance(v, int):
             return ["num", v]
         if isinstance(v, float):
-            return ["float", repr(v)]
+            return ["real", repr(v)]
         if isinstance(v, str):
             return ["str", v.strip('"')]
         return ["none"]
@@ -637,6 +639,12 @@ def oracle_c07(lib, target, obs):
         miss = [e for e in want if e not in got]
         extra = [e for e in got if e not in want]
         return ("flat equations are not the renamed equations of every instance: missing %s, extra %s" % (miss[:3], extra[:3]),
+                want, got)
+    want = sorted([l[1] for l, _ in value_eqs] + [l[1] for l, _ in orc.flow_eqs])
+    got = sorted(e[0][1] for e in obs["eqs"] if is_sym_eq(e))
+    if got != want:
+        return ("declaration equations (and unconnected-flow equations) are not one per bound non-parameter leaf: "
+                "missing %s, extra %s" % ([n for n in want if n not in got][:4], [n for n in got if n not in want][:4]),
                 want, got)
     want = sorted(map(_key, orc.ieqs))
     got = sorted(_key(e) for e in obs.get("ieqs", []))
@@ -902,7 +910,7 @@ class Gen:
                                                     any(Index(self.lib).cls[ty[:j]]["kind"] != "package"
                                                         for j in range(1, len(ty))))))
             else:
-                opts = ["Real"] * 5 + ["Integer", "Boolean"]
+                opts = ["Real"] * 6 + ["Integer", "Boolean", "Boolean", "String"]
                 al = [a for a in self.aliases if self.ref_to(me, a) is not None]
                 if al:
                     opts += ["@"] * 3
@@ -915,7 +923,7 @@ class Gen:
                     continue
                 pre = rng.choice([[], [], [], ["parameter"], ["parameter"], ["constant"], ["input"], ["output"],
                                   ["discrete"], ["flow"], ["parameter", "input"]])
-                if ty == "Boolean" and pre == ["flow"]:
+                if ty in ("Boolean", "String") and pre in (["flow"], ["parameter", "input"], ["input"], ["output"]):
                     pre = []
                 dims = []
                 if ty == "Real" and rng.random() < 0.3:
@@ -948,15 +956,19 @@ class Gen:
                         others = [r for r in scal if r != [[k["name"], []]]]
                         if set(k["prefixes"]) & {"parameter", "constant"}:
                             sem.append(((), None, self.num_expr(others if rng.random() < 0.3 else [], [])))
-                        elif rng.random() < 0.12:
-                            sem.append(((), None, self.num_expr(others, arrs)))
+                        elif rng.random() < 0.3:
+                            # declaration equation of a variable: literals (0, 0.0, ...) as likely as expressions
+                            sem.append(((), None, self.num_expr(others if rng.random() < 0.5 else [], arrs)))
                         for a in rng.sample(NUM_ATTRS, rng.choice([0, 0, 1, 1, 2])):
                             sem.append(((), a, self.num_expr(others if rng.random() < self.ref_rate else [], [])))
                         if rng.random() < 0.1:
-                            sem.append(((), "fixed", ["bool", True]))
+                            sem.append(((), "fixed", ["bool", rng.random() < 0.7]))
                         if rng.random() < 0.1:
-                            sem.append(((), "unit", ["str", rng.choice(["V", "m/s", "K"])]))
-                    elif set(k["prefixes"]) & {"parameter", "constant"}:
+                            sem.append(((), "unit", ["str", rng.choice(["V", "m/s", "K", ""])]))
+                    elif k["type"] == "String":
+                        if set(k["prefixes"]) & {"parameter", "constant"} or rng.random() < 0.6:
+                            sem.append(((), None, ["str", rng.choice(["", "", "on", "a b"])]))
+                    elif set(k["prefixes"]) & {"parameter", "constant"} or rng.random() < 0.4:
                         sem.append(((), None, ["bool", rng.random() < 0.5]))
                 elif rng.random() < 0.3:
                     sem.append(((), rng.choice(NUM_ATTRS), ["num", rng.randint(1, 9)]))
@@ -1097,6 +1109,11 @@ class Gen:
         if depth > 1 or rng.random() < 0.45 or not (scal or arrs):
             if (scal or arrs) and rng.random() < 0.6:
                 return ["ref", copy.deepcopy(rng.choice(arrs) if arrs and rng.random() < 0.3 else rng.choice(scal or arrs))]
+            r = rng.random()
+            if r < 0.25:
+                return ["num", rng.choice([0, 0, 1])]
+            if r < 0.35:
+                return ["real", rng.choice(["0.0", "0.0", "1.0", "0.5", "2.5"])]
             k = ["num", rng.randint(0, 9)]
             return ["un", "-", k] if rng.random() < 0.15 else k
         if allow_fn and rng.random() < 0.15:
@@ -1120,10 +1137,12 @@ class Gen:
             _, path, k, b, dims, _al = rng.choice(leaves)
             if avoid_alias and _al and rng.random() < 0.85:
                 continue          # (a local class's type-definition leaves modified from outside: C07-F2)
-            if b == "Boolean":
-                if (path, None) not in used and set(k["prefixes"]) & {"parameter", "constant"} and not dims:
+            if b in ("Boolean", "String"):
+                if (path, None) not in used and not dims and (
+                        set(k["prefixes"]) & {"parameter", "constant"} or rng.random() < 0.4):
                     used.add((path, None))
-                    sem.append((path, None, ["bool", rng.random() < 0.5]))
+                    sem.append((path, None, ["bool", rng.random() < 0.5] if b == "Boolean"
+                                else ["str", rng.choice(["", "x"])]))
                 continue
             is_par = bool(set(k["prefixes"]) & {"parameter", "constant"})
             r = rng.random()
@@ -1137,9 +1156,9 @@ class Gen:
                 continue
             used.add((path, attr))
             if attr == "fixed":
-                e = ["bool", True]
+                e = ["bool", rng.random() < 0.6]
             elif attr == "unit":
-                e = ["str", "K"]
+                e = ["str", rng.choice(["K", "K", ""])]
             elif dims:
                 e = ["num", rng.randint(1, 9)]
             else:
